@@ -291,10 +291,36 @@ func StatusCodeIsRedirect(statusCode int) bool {
 func getRedirectURL(baseURL string, location []byte) string {
 	u := protocol.AcquireURI()
 	u.Update(baseURL)
-	u.UpdateBytes(location)
+	u.UpdateBytes(escapeLocation(location))
 	redirectURL := u.String()
 	protocol.ReleaseURI(u)
 	return redirectURL
+}
+
+// escapeLocation percent-encodes the bytes of a Location value that cannot stand in a
+// request target (space, control bytes, bytes above 0x7e): the peer chooses the value,
+// and the query of the target is written as it is.
+func escapeLocation(location []byte) []byte {
+	clean := true
+	for _, c := range location {
+		if c <= ' ' || c >= 0x7f {
+			clean = false
+			break
+		}
+	}
+	if clean {
+		return location
+	}
+	const hex = "0123456789ABCDEF"
+	dst := make([]byte, 0, len(location)+16)
+	for _, c := range location {
+		if c <= ' ' || c >= 0x7f {
+			dst = append(dst, '%', hex[c>>4], hex[c&0xf])
+		} else {
+			dst = append(dst, c)
+		}
+	}
+	return dst
 }
 
 func DoTimeout(ctx context.Context, req *protocol.Request, resp *protocol.Response, timeout time.Duration, c Doer) error {
